@@ -55,7 +55,7 @@ func scriptFromJSON(m map[string]any) *BatchScript {
 var batchShapes = []string{"results", "results", "anys", "ptrs", "maps", "strings", "ints"}
 
 func genBatch(r *rand.Rand, mode string) (BatchCfg, *BatchScript) {
-	c := BatchCfg{N: 1 + r.Intn(4), Items: r.Intn(13), C: r.Intn(6), Acts: []int{0, 1, 2}, Outs: []string{"ok", "err"},
+	c := BatchCfg{N: 1 + r.Intn(4), Items: r.Intn(13), C: r.Intn(6), Acts: []int{0, 1, 2, 6, 7, 8}, Outs: []string{"ok", "err"},
 		Shape: batchShapes[r.Intn(len(batchShapes))], ExSty: []string{"r", "a"}[r.Intn(2)], Via: []string{"builder", "node", "builder", "flow"}[r.Intn(4)],
 		Sched: []string{"random", "random", "free"}[r.Intn(3)], CtxKind: "cancel"}
 	if r.Intn(6) == 0 {
